@@ -4,6 +4,8 @@ the hand-written C++-API mirror table of harness/c42_driver.cpp.
 
 cwrapper.cpp.  Every function defined inside an `extern "C" { ... }` block becomes one `cfun` record:
 
+  * the definitions of CWRAPPER_BEGIN / CWRAPPER_END are emitted as text (the model records the text it transcribes:
+    SymEngineException -> e.error_code(), anything else -> SYMENGINE_RUNTIME_ERROR);
   * the IMPLEMENT_* function-generating macros are expanded with their definitions from the file (so a change to
     a macro body is a change to every function it generates); CWRAPPER_BEGIN / CWRAPPER_END stay tokens;
   * preprocessor conditionals are dropped and BOTH branches kept (the table covers every build configuration);
@@ -12,6 +14,7 @@ cwrapper.cpp.  Every function defined inside an `extern "C" { ... }` block becom
                WNone  = no try block;
   * cf_guards: the `if (not is_a_X(p) [or not is_a_Y(q)]) return SYMENGINE_RUNTIME_ERROR;` statements in front of
     the try block; cf_asserts: the SYMENGINE_ASSERT(is_a...(p)) type preconditions (compiled out in release builds);
+  * cf_zguards: `if (p == 0) { return SYMENGINE_X; }` tests of a scalar parameter at the head of the protected part;
   * cf_calls_out: every function / method / constructor named OUTSIDE the try block (for WNone: anywhere in the body),
     SYMENGINE_ASSERT arguments excluded -- these are the calls whose exceptions would leave the extern "C" function;
   * the forward shape: when the (protected part of the) body is ONE statement
@@ -45,6 +48,12 @@ KEYWORDS = {"if", "for", "while", "return", "sizeof", "switch", "catch", "not", 
             "static_cast", "reinterpret_cast", "const_cast", "dynamic_cast", "defined", "throw", "delete", "else"}
 # wrappers that only adapt the representation of an argument (no C++-API semantics of their own)
 ADAPTERS = ["rcp_static_cast", "down_cast", "numeric_cast", "static_cast"]
+
+
+# symengine_exception.h
+ERROR_CODES = {"SYMENGINE_NO_EXCEPTION": 0, "SYMENGINE_RUNTIME_ERROR": 1, "SYMENGINE_DIV_BY_ZERO": 2,
+               "SYMENGINE_NOT_IMPLEMENTED": 3, "SYMENGINE_DOMAIN_ERROR": 4, "SYMENGINE_PARSE_ERROR": 5,
+               "SYMENGINE_SERIALIZATION_ERROR": 6}
 
 
 class Bad(Exception):
@@ -145,6 +154,8 @@ def read_macros(src):
                 i += 1
                 body += lines[i]
             name = m.group(1)
+            if name in ("CWRAPPER_BEGIN", "CWRAPPER_END"):
+                macros["#" + name] = ([], "".join(body.split()))
             if name.startswith("IMPLEMENT_"):
                 if m.group(2) is None:
                     raise Bad("IMPLEMENT_ macro without parameters: " + name)
@@ -166,6 +177,8 @@ def expand_macros(txt, macros):
     for _ in range(4):
         changed = False
         for name, (params, body) in macros.items():
+            if name.startswith("#"):
+                continue
             pat = re.compile(r"\b" + name + r"\s*\(")
             pos = 0
             out = []
@@ -772,6 +785,15 @@ def analyse(ret, name, params_s, body):
         calls_out = calls_in(pre)
     else:
         calls_out = calls_in(pre)
+    # ---- zero tests of a scalar parameter at the head of the protected part:  if (p == 0) { return SYMENGINE_X; }
+    zguards = []
+    if wrap == "WFull":
+        while True:
+            zg = re.match(r"^\s*if\s*\(\s*(\w+)\s*==\s*0\s*\)\s*\{\s*return\s+(SYMENGINE_\w+)\s*;\s*\}", inner)
+            if not zg or zg.group(1) not in [p[0] for p in params] or zg.group(2) not in ERROR_CODES:
+                break
+            zguards.append(([p[0] for p in params].index(zg.group(1)), ERROR_CODES[zg.group(2)]))
+            inner = inner[zg.end():]
     # ---- forward shape
     out, tmpl, order = "ONone", "", []
     stmts = [s.strip() for s in split_top(inner, ";") if s.strip()]
@@ -803,7 +825,7 @@ def analyse(ret, name, params_s, body):
             out = "ONone"
             tmpl, order = normalise_expr(s, params)
     return {
-        "name": name, "ret": rk, "params": params, "guards": guards, "asserts": pasrt, "casts": casts, "wrap": wrap,
+        "name": name, "ret": rk, "params": params, "guards": guards, "asserts": pasrt, "casts": casts, "zguards": zguards, "wrap": wrap,
         "out": out, "tmpl": tmpl, "args": order, "calls_out": calls_out, "fp": fp,
     }
 
@@ -973,16 +995,21 @@ def main():
     o.append("Definition cwrap_table : list cfun := [")
     rows = []
     for f in funs:
-        rows.append("  mk_cfun %s %s %s %s %s %s %s (%s) %s %s %s %s" % (
+        rows.append("  mk_cfun %s %s %s %s %s %s %s %s (%s) %s %s %s %s" % (
             coq_str(f["name"]), f["ret"], coq_list(k for _, k in f["params"]),
             coq_list("(%s, %d%%nat)" % (coq_str(g), i) for g, i in f["guards"]),
             coq_list("(%s, %d%%nat)" % (coq_str(g), i) for g, i in f["asserts"]),
             coq_list("(%s, %d%%nat)" % (coq_str(g), i) for g, i in f["casts"]),
+            coq_list("(%d%%nat, %d%%N)" % (i, c) for i, c in f["zguards"]),
             f["wrap"], f["out"] if f["out"] == "ONone" or f["out"] == "ORet" else f["out"] + "%nat",
             coq_str(f["tmpl"]), coq_list("%d%%nat" % i for i in f["args"]),
             coq_list(coq_str(c) for c in f["calls_out"]), coq_str(f["fp"])))
     o.append(";\n".join(rows))
     o.append("].")
+    o.append("")
+    o.append("(* the text of the two protection macros (white space removed) *)")
+    o.append("Definition cwrapper_begin_text : string := %s." % coq_str(macros.get("#CWRAPPER_BEGIN", ([], ""))[1]))
+    o.append("Definition cwrapper_end_text : string := %s." % coq_str(macros.get("#CWRAPPER_END", ([], ""))[1]))
     o.append("")
     o.append("(* Expression operators / helpers read from expression.h: (name, variant, template, argument order);")
     o.append("   variant = M(ember)|F(ree) followed by one letter per parameter: E(xpression) B(asic RCP) S(ymbol RCP) O(ther);")
